@@ -172,7 +172,7 @@ fn prop_is(p: &TxtProperty, kn: usize, kb: [u8; 2], v: Option<(usize, [u8; 2])>)
 }
 
 // @harness c16_roundtrip_1
-// @property C16
+// @property X16
 // @tier quick
 // @functions encode_txt, decode_txt
 // @bound one property: key of 1..=2 symbolic ASCII bytes without '=', value absent or 0..=2 arbitrary bytes (so '=', NUL and non-UTF-8 occur)
@@ -204,7 +204,7 @@ fn c16_roundtrip_1() {
 }
 
 // @harness c16_roundtrip_2
-// @property C16
+// @property X16
 // @tier thorough
 // @functions encode_txt, decode_txt
 // @bound two properties, each as in c16_roundtrip_1
@@ -232,7 +232,7 @@ fn c16_roundtrip_2() {
 }
 
 // @harness c16_encode_empty
-// @property C16
+// @property X16
 // @tier quick
 // @functions encode_txt, decode_txt
 // @bound the empty property list
@@ -287,7 +287,7 @@ macro_rules! c16_decode_total {
 }
 
 // @harness c16_decode_total_4
-// @property C16 C15
+// @property X16
 // @tier quick
 // @functions decode_txt
 // @bound every TXT RDATA of exactly 4 bytes (2^32 contents)
@@ -298,7 +298,7 @@ macro_rules! c16_decode_total {
 c16_decode_total!(c16_decode_total_4, 4, 7);
 
 // @harness c16_decode_total_6
-// @property C16 C15
+// @property X16
 // @tier thorough
 // @functions decode_txt
 // @bound every TXT RDATA of exactly 6 bytes (2^48 contents)
@@ -450,7 +450,7 @@ macro_rules! c08_tiebreak_count {
 }
 
 // @harness c08_tiebreak_count_short
-// @property C08
+// @property X08
 // @maps vmap
 // @tier quick
 // @functions Probe::tiebreaking, Probe::insert_record, DnsRecordExt::compare
@@ -461,7 +461,7 @@ macro_rules! c08_tiebreak_count {
 c08_tiebreak_count!(c08_tiebreak_count_short, true);
 
 // @harness c08_tiebreak_count_long
-// @property C08
+// @property X08
 // @maps vmap
 // @tier quick
 // @functions Probe::tiebreaking, Probe::insert_record, DnsRecordExt::compare
